@@ -324,11 +324,14 @@ def groupNumberFromName (m : Maps) (name : String) : Option Nat :=
   | none =>
     -- the decimal string of a group number: not empty, no leading zero, digits only, in range
     -- (the early `result >= capsize` exit of the loop answers as the final range check does)
-    if name = "" || (name.length > 1 && name.front = '0') then none
-    else if name.toList.all Char.isDigit then
-      let r := Nat.ofDigitChars 10 name.toList 0
-      if r < m.capsize then some r else none
-    else none
+    match name.toList with
+    | [] => none
+    | c :: rest =>
+      if c = '0' && !rest.isEmpty then none
+      else if (c :: rest).all Char.isDigit then
+        let r := Nat.ofDigitChars 10 (c :: rest) 0
+        if r < m.capsize then some r else none
+      else none
 
 /-- `Match.GroupByNumber`: the dense slot it returns (`none` = nil) -/
 def groupByNumberSlot (m : Maps) (num : Nat) : Option Nat :=
